@@ -298,6 +298,22 @@ def opt_map_or(I, c):
     return I.call_value(c.args[2], [o.f[0]])
 
 
+@model_re(r'^(std::option::)?Option::map_or_else$')
+def opt_map_or_else(I, c):
+    o = c.args[0]
+    if o.var == 'None':
+        return I.call_value(c.args[1], [])
+    return I.call_value(c.args[2], [o.f[0]])
+
+
+@model_re(r'^(std::result::)?Result::map_or_else$')
+def res_map_or_else(I, c):
+    o = c.args[0]
+    if o.var == 'Err':
+        return I.call_value(c.args[1], [o.f[0]])
+    return I.call_value(c.args[2], [o.f[0]])
+
+
 @model_re(r'^(std::option::)?Option::ok_or$')
 def opt_ok_or(I, c):
     o = c.args[0]
